@@ -285,6 +285,7 @@ impl<T> RcInner<T> {
         // decrement, this must leave the current epoch in the count word: otherwise an object
         // that is only kept alive by a link of a node that is being reclaimed looks untouched to
         // the cascade, which then reclaims it immediately.
+        vpoint!(EpochRead, 0usize);
         let epoch = global_epoch();
         vpoint!(State, self as *const Self);
         let mut old = State::from_raw(self.state.load(Ordering::SeqCst));
